@@ -172,6 +172,8 @@ func (w *World) auditLedger(t *rapid.T) {
 				}
 			}
 		}
+		// the same ledger as clients see it through the API handlers
+		w.auditLedgerAPI(t, wi, m, coins, tip)
 	}
 }
 
